@@ -196,10 +196,11 @@ def c06_5(ctx, r):
     # existing jobs <- cluster.iter_hpc_job_ids()
     ex = ctx.arg_for(s, qinit, "existing_jobs")
     ok = False
-    if isinstance(ex, ast.Name):
-        # either form of the collection: [create_from_id(..., v) for v in iter_hpc_job_ids()] or the loop with append
+    if ex is not None:
+        # either form of the collection: [create_from_id(..., v) for v in iter_hpc_job_ids()] or the loop with append - bound to a local or written in the call
         for c in collections_from(ctx, run, lambda e: "Cluster.iter_hpc_job_ids" in render(ctx, run, e)):
-            if c["into"] == ex.id and not c["conds"] and "create_from_id" in c["elt"] and c["elt"].replace(" ", "").endswith(",_)"):
+            here = (isinstance(ex, ast.Name) and c["into"] == ex.id) or (c["form"] == "comprehension" and (ex is c["at"] or (isinstance(ex, ast.Call) and ctx.src(ex.func) in ("list", "tuple") and len(ex.args) == 1 and ex.args[0] is c["at"])))
+            if here and not c["conds"] and "create_from_id" in c["elt"] and c["elt"].replace(" ", "").endswith(",_)"):
                 ok = True
     r.check(ok, "the round's queue starts with every persisted active id", key_of(run, "existing jobs"), s.loc,
             "the queue is not pre-filled with all persisted hpc_job_ids: batches still running are not counted and more than max-nodes are submitted", "each round re-derives the number of active batches")
@@ -231,9 +232,9 @@ def c06_5(ctx, r):
     for s2 in ctx.some_sites(run, "C06.5", short="HpcSubmitter._update_status"):
         a = ctx.arg_for(s2, us, "hpc_job_ids")
         okp = False
-        if isinstance(a, ast.Name):
+        if a is not None:
             for n in ctx.nodes_of(run, s2.node):
-                ud = ctx.rd(run).unique_def(n, a.id)
+                ud = ctx.rd(run).unique_def(n, a.id) if isinstance(a, ast.Name) else (n, a)
                 if ud and isinstance(ud[1], ast.AST):
                     txt = ctx.src(ud[1]).replace(" ", "")
                     qv = None
@@ -325,6 +326,8 @@ def c06_6(ctx, r):
             for n in ctx.nodes_of(sj, s.node):
                 ud = ctx.rd(sj).unique_def(n, a.id)
                 ok = ud is not None and isinstance(ud[1], ast.AST) and render(ctx, sj, ud[1]) == "<SubmitterParams.num_parallel_processes_per_node>"
+        elif a is not None:
+            ok = render(ctx, sj, a) == "<SubmitterParams.num_parallel_processes_per_node>"
         r.check(ok, "local mode passes the group's processes-per-node", key_of(sj, "local option"), s.loc, "local mode ignores num_parallel_processes_per_node")
 
 
